@@ -197,3 +197,19 @@ mircheck("C17", "Blocking API is the async API seen from a thread", SYMEX,
          [m("blocking", "8 configurations: blocking_tell/blocking_ask without timeout, the deprecated aliases with an (ignored) timeout, the timeout variants against a live actor, an actor that never answers in time, a mailbox that stays full, a killed actor; one calling thread (its whole call is one step while every other task keeps being scheduled, all choices explored) + an async sender / stopper / killer", "same C01/C02/C03/C13 monitors; with a timeout the call returns by the (virtual) deadline and never before it reports Timeout; aliases create no timer; timers carry the caller's duration")],
          "see scenario", "real OS threads, several concurrent blocking callers, wall-clock bounds, 'callable inside a runtime without panicking' (a property of real tokio's runtime-entering rules): NOT claimed",
          "the helper-thread closure and its private runtime are interpreted inline (thread::spawn runs the closure at the spawn point; Runtime::block_on drives the future while the scheduler keeps choosing other transitions)")
+
+CHECKS["C03"]["groups"][-1]["scenarios"].append(m("ask_join_scn", "handler returns the JoinHandle of a task it spawned; the task finishes with a symbolic 8-bit value / panics / is aborted at an arbitrary moment, or the actor is killed", "ask_join returns exactly the task's output or Error::Join carrying that task's JoinError"))
+CHECKS["C03"]["outside"] = "reply types other than the scripted u8 and JoinHandle<u8>"
+
+CHECKS["C19"] = {
+    "title": "Macro-generated code means what the hand-written code would", "level": "model_checking",
+    "technique": SYMEX + " applied to the code GENERATED by the real macros for a corpus of programs (enumerated from the handler-signature grammar), with symbolic actor state and message payloads",
+    "functions": ["the expansion of #[derive(Actor)] and #[message_handlers] (rsactor-derive, executed by rustc when the overlay is compiled) for 8 corpus programs: structs, tuple struct, enum, generic struct x return types {u32, (), Result<..>, std::result::Result<..>, type alias of Result, Option<..>} x {#[handler], #[handler(result)], #[handler(no_log)]} x a co-existing non-handler method", "<T as PayloadHandler<A>>::handle_message", "ActorRef::{tell,ask}", "run_actor_lifecycle"],
+    "bounds": "8 generated programs (every valid return-type x option combination occurs), 2 handlers each, one tell and one ask per handler, actor state (32 bit) and the four message payloads (8 bit) symbolic; runtime half: 2 clients, 4 messages, all schedules",
+    "outside": "the macro algorithm itself runs at compile time on syn trees and is not executed symbolically: programs are ENUMERATED from the grammar, only their inputs are symbolic; compile-error rows of the table (result + no_log, result on `()`) are not checked; Reply-type equality is checked through the shape of replies, not at the type level",
+    "assumptions": MIRENV + ["tracing::error!/warn! are model macros that report their level to an observable hook without evaluating their arguments"],
+    "trusted_base": MIRTRUST + ["rustc's macro expansion of the corpus"],
+    "explanation": "for every corpus program and all values: ask replies and the final actor state equal the arithmetic of the user methods stated independently by the generator (handle == the method), reply shapes match the declared return types, derive(Actor)::on_start returns its argument unchanged (enum variant, extra fields), and the number of error events emitted by generated on_tell_result code equals the documented decision table; runtime half: on_tell_result exactly once after each tell with the handler's value, never after an ask",
+    "groups": [{"engine": "mir", "features": [], "scenarios": [m("macro_runtime", "scripted actor, 2 clients, tell/ask mix, all schedules", "on_tell_result once per tell with the handler's value, never for asks, directly after the handler")]},
+               {"engine": "mir", "features": ["verif-corpus"], "scenarios": [m("macro_corpus", "8 programs x symbolic state and payloads", "see explanation", xval=False)]}],
+}
